@@ -68,7 +68,7 @@ type Call struct {
 	Ref   [3]uint64 `json:"ref"`
 	Code  int       `json:"code"` // response error: 0 nil 1 unknown 2 mailbox full 3 terminated 255 other
 	Err   string    `json:"err"`
-	Val   int       `json:"val"` // index of the sent message whose value equals the received one, -1 = none
+	Val   int       `json:"val"`  // index of the sent message whose value equals the received one, -1 = none
 	Meta  string    `json:"meta"` // node names / creations attached to the ids ("" = as expected)
 
 	value any
@@ -276,12 +276,12 @@ func (f *fakeCore) MakeRef() gen.Ref {
 	f.mu.Unlock()
 	return r
 }
-func (f *fakeCore) Name() gen.Atom    { return f.name }
-func (f *fakeCore) Creation() int64   { return f.creation }
-func (f *fakeCore) PID() gen.PID      { return gen.PID{Node: f.name, ID: 1, Creation: f.creation} }
-func (f *fakeCore) LogLevel() gen.LogLevel { return gen.LogLevelError }
-func (f *fakeCore) Security() gen.SecurityOptions { return gen.SecurityOptions{} }
-func (f *fakeCore) EnvList() map[gen.Env]any { return nil }
+func (f *fakeCore) Name() gen.Atom                            { return f.name }
+func (f *fakeCore) Creation() int64                           { return f.creation }
+func (f *fakeCore) PID() gen.PID                              { return gen.PID{Node: f.name, ID: 1, Creation: f.creation} }
+func (f *fakeCore) LogLevel() gen.LogLevel                    { return gen.LogLevelError }
+func (f *fakeCore) Security() gen.SecurityOptions             { return gen.SecurityOptions{} }
+func (f *fakeCore) EnvList() map[gen.Env]any                  { return nil }
 func (f *fakeCore) RouteNodeDown(node gen.Atom, reason error) {}
 
 // waitCalls waits until at least n calls were recorded or the timeout expires.
@@ -455,29 +455,30 @@ func (r *relayDir) snapshot() (tap []byte, chunks []int) {
 // ---------------------------------------------------------------------------------------
 
 type linkRelay struct {
-	ab, ba     *relayDir
-	a1, a2     net.Conn
-	b1, b2     net.Conn
+	ab, ba *relayDir
+	a1, a2 net.Conn
+	b1, b2 net.Conn
 }
 
 type pairCfg struct {
-	Pool      int    `json:"pool"`      // configured pool size (both ends)
-	MaxAB     int    `json:"max_ab"`    // B's max message size = A's peer max (0 = unlimited)
-	Important bool   `json:"important"` // both ends advertise EnableImportantDelivery
-	Policy    string `json:"policy"`    // chunking A->B
-	Cache     bool   `json:"cache"`     // atom cache entries for some names
-	Seed      int64  `json:"seed"`
+	Pool      int      `json:"pool"`      // configured pool size (both ends)
+	MaxAB     int      `json:"max_ab"`    // B's max message size = A's peer max (0 = unlimited)
+	Important bool     `json:"important"` // both ends advertise EnableImportantDelivery
+	Policy    string   `json:"policy"`    // chunking A->B
+	Cache     bool     `json:"cache"`     // atom cache entries for some names
+	Seed      int64    `json:"seed"`
+	PoolDSN   []string `json:"pool_dsn,omitempty"` // B is the dialing side: addresses its re-dial loop walks through
 }
 
 type pair struct {
-	cfg    pairCfg
-	coreA  *fakeCore
-	coreB  *fakeCore
-	logA   *nolog
-	logB   *nolog
-	connA  gen.Connection
-	connB  gen.Connection
-	links  []*linkRelay
+	cfg   pairCfg
+	coreA *fakeCore
+	coreB *fakeCore
+	logA  *nolog
+	logB  *nolog
+	connA gen.Connection
+	connB gen.Connection
+	links []*linkRelay
 
 	poisoned bool // a call into the connection panicked; its locks may be held for ever
 }
@@ -499,7 +500,7 @@ func newPair(cfg pairCfg) (*pair, error) {
 	p.logA, p.logB = &nolog{}, &nolog{}
 	flags := gen.NetworkFlags{Enable: true, EnableImportantDelivery: cfg.Important}
 	optsA := handshake.ConnectionOptions{PoolSize: cfg.Pool}
-	optsB := handshake.ConnectionOptions{PoolSize: cfg.Pool}
+	optsB := handshake.ConnectionOptions{PoolSize: cfg.Pool, PoolDSN: cfg.PoolDSN}
 	if cfg.Cache {
 		enc, dec := &sync.Map{}, &sync.Map{}
 		for k, v := range cachedNames {
